@@ -24,7 +24,13 @@ tie    : (a) T-gen per class: bitstructs._create_fn is wrapped FROM HERE and the
          sitting at two positions; "families" of declarations sharing one class name (permuted order, re-paired names/types, one type
          changed, nesting changed, identical re-declaration) are each checked against their OWN declaration (__bitstruct_fields__ order,
          generated texts, values).
-partial: the store model abstracts Python objects to trees of cells (a struct instance / list is immutable apart from its leaf cells);
+         (d) operation sequences: random interleavings on a pool of LIVE objects (instances of the type, BitsW objects, instances of other
+         struct types of the same width) of constructions, clone/deepcopy, from_bits(x.to_bits()), writes of fresh values and assignments
+         `x_i.p @= / <<= x_j.q` whose right-hand side is any node of any live object, _flip at any node, observations; after each observed step
+         every object's fields (with class identity), to_bits, pairwise == and hash equality are checked by coqc against `seq_run`
+         (value semantics: the value at the time of the assignment, never a link), plus "from_bits(x.to_bits()) == x and hashes equal"
+         and a no-shared-object scan over all live objects.
+partial: the sequence model (seq_step) reuses the proven store operations but has no theorem of its own; the store model abstracts Python objects to trees of cells (a struct instance / list is immutable apart from its leaf cells);
          the link "per-class slot recursion = leaf-wise fold" is by construction of the model, checked by (b) only.
 """
 from common import *
@@ -568,118 +574,171 @@ def run(ctx):
         if s[2][0] != 'l': out.append((q, s[2]))
         out += sh_nodes(s[2], q)
     return out
+  by_width = {}
+  for cc in classes: by_width.setdefault(cc.width, []).append(cc)
+  def slot_shape(c, kind):
+    """kind: 'T' the type under test, 'bits' a BitsW object, ('other', idx) another struct type of the same width"""
+    if kind == 'T': return ('s', c)
+    if kind == 'bits': return ('b', c.width)
+    return ('s', classes[kind[1]])
+  def slot_nodes(sh):
+    return [((), sh)] + sh_nodes(sh)
   def gen_sequence(c, nsteps):
-    """a random interleaving of constructions, copies, whole-struct and in-place partial writes, <<= / _flip and plain observations"""
-    s = ('s', c); W = c.width; nodes = sh_nodes(s)
-    pool = [v_unpack(s, 0), v_unpack(s, rng.getrandbits(W)), v_unpack(s, rng.getrandbits(W))]   # few values: the same one is built / unpacked repeatedly
-    seq = []; pending = set()
-    def new():
-      v = rng.choice(pool)
-      return {'op': 'new', 'value': v, 'how': 'default' if (is_zero(v) and rng.random() < 0.5) else rng.choice(['args', 'partial', 'from_bits', 'from_bits'])}
-    seq.append(new()); n = 1
-    if rng.random() < 0.7: seq.append(new()); n = 2
+    """a random interleaving, on a pool of LIVE objects (instances of c, BitsW objects, instances of other struct types of the same
+    width), of constructions, copies, writes of fresh values, assignments whose right-hand side is any node of any live object,
+    <<= / _flip at any node, and plain observations.  Pure data (replayable)."""
+    W = c.width
+    others = [x for x in by_width.get(W, []) if x.pycls is not c.pycls]
+    pool = {}
+    def val(sh):
+      k = json.dumps(sh_spec(sh), default=str)
+      if k not in pool: pool[k] = [v_unpack(sh, 0), v_unpack(sh, rng.getrandbits(sh_width(sh))), v_unpack(sh, rng.getrandbits(sh_width(sh)))]
+      return rng.choice(pool[k])          # few values per type: the same one is built / unpacked repeatedly
+    seq = []; kinds = []; nxt_defined = []; pend = []
+    def new(kind):
+      sh = slot_shape(c, kind); v = val(sh)
+      how = 'bits' if kind == 'bits' else ('default' if (is_zero(v) and rng.random() < 0.5) else rng.choice(['args', 'partial', 'from_bits', 'from_bits']))
+      kinds.append(kind); nxt_defined.append(set())
+      return {'op': 'new', 'kind': list(kind) if isinstance(kind, tuple) else kind, 'value': v, 'how': how}
+    def pick_kind():
+      r = rng.random()
+      if r < 0.45: return 'T'
+      if r < 0.8 or not others: return 'bits'
+      return ('other', rng.choice(others).idx)
+    seq.append(new('T'))
+    if rng.random() < 0.6: seq.append(new('T'))
+    if rng.random() < 0.7: seq.append(new('bits'))
+    if others and rng.random() < 0.4: seq.append(new(('other', rng.choice(others).idx)))
+    def leaves_under(sh, pth): return {tuple(pth) + lp for lp, _ in sh_leaves(sh)}
     while len(seq) < nsteps:
-      r = rng.random(); i = rng.randrange(n); j = rng.randrange(n)
-      if pending and r < 0.3:
-        i = rng.choice(sorted(pending)); pending.discard(i); seq.append({'op': 'flip', 'i': i})
-      elif r < 0.42:
-        pth, sh = rng.choice(nodes)
-        v = v_unpack(sh, rng.getrandbits(sh_width(sh)))
-        hows = ['inplace@=', 'attr@='] + ([] if i in pending else ['<<=flip'])
-        seq.append({'op': 'write', 'i': i, 'path': [list(x) for x in pth], 'value': v, 'how': rng.choice(hows)})
-      elif r < 0.50 and n < 4: seq.append(new()); n += 1
-      elif r < 0.58 and n < 4: seq.append({'op': 'clone', 'i': i, 'how': rng.choice(['clone', 'deepcopy'])}); n += 1
-      elif r < 0.65 and n < 4: seq.append({'op': 'reunpack', 'i': i}); n += 1
-      elif r < 0.75: seq.append({'op': 'imatmul', 'i': i, 'j': j, 'how': rng.choice(['struct', 'struct', 'bits'])})
-      elif r < 0.85: seq.append({'op': 'ilshift', 'i': i, 'j': j, 'how': rng.choice(['struct', 'struct', 'bits'])}); pending.add(i)
+      n = len(kinds); r = rng.random(); i = rng.randrange(n)
+      shi = slot_shape(c, kinds[i]); pth, sh = rng.choice(slot_nodes(shi))
+      flippable = [(a, q) for a in range(n) for q, shq in slot_nodes(slot_shape(c, kinds[a])) if leaves_under(shq, q) <= nxt_defined[a]]
+      if pend and r < 0.25:
+        a, q = pend.pop(rng.randrange(len(pend))); seq.append({'op': 'flip', 'i': a, 'path': [list(x) for x in q]})
+      elif flippable and r < 0.30:
+        a, q = rng.choice(flippable); seq.append({'op': 'flip', 'i': a, 'path': [list(x) for x in q]})
+      elif r < 0.45:
+        nb = rng.random() < 0.35
+        seq.append({'op': 'write', 'nb': nb, 'i': i, 'path': [list(x) for x in pth], 'value': val(sh), 'how': rng.choice(['inplace', 'attr'])})
+        if nb: nxt_defined[i] |= leaves_under(sh, pth); pend.append((i, pth))
+      elif r < 0.70:
+        w = sh_width(sh)
+        srcs = [(a, q) for a in range(n) for q, shq in slot_nodes(slot_shape(c, kinds[a])) if sh_width(shq) == w]
+        far = [x for x in srcs if x[0] != i]
+        a, q = rng.choice(far if (far and rng.random() < 0.85) else srcs)
+        nb = rng.random() < 0.5
+        seq.append({'op': 'assign', 'nb': nb, 'i': i, 'path': [list(x) for x in pth], 'j': a, 'src_path': [list(x) for x in q],
+                    'how': rng.choice(['inplace', 'attr']), 'rhs': rng.choice(['live', 'live', 'to_bits'])})
+        if nb: nxt_defined[i] |= leaves_under(sh, pth); pend.append((i, pth))
+      elif r < 0.78 and n < 5: seq.append(new(pick_kind()))
+      elif r < 0.85 and n < 5:
+        seq.append({'op': 'clone', 'i': i, 'how': rng.choice(['clone', 'deepcopy'])}); kinds.append(kinds[i]); nxt_defined.append(set())
+      elif r < 0.92 and n < 5:
+        seq.append({'op': 'reunpack', 'j': i}); kinds.append('T'); nxt_defined.append(set())      # c.from_bits(x_j.to_bits()) for ANY live x_j
       else: seq.append({'op': 'nop'})
     for d in seq: d['observe'] = rng.random() < 0.75
     seq[-1]['observe'] = True
     return seq
   def run_sequence(c, seq):
-    s = ('s', c); objs = []; ops = []; obs = []; pyobs = []
+    objs = []; shapes = []; tags = []; ops = []; obs = []; pyobs = []
     def fail(kind, k, what, extra=None):
       h = hashlib.sha1(json.dumps([kind, c.spec(), seq], default=str).encode()).hexdigest()[:10]
       ctx.violation(f'C06:sequence-{kind}:{h}', f'operation sequence, step {k} ({seq[k]["op"] if k < len(seq) else "?"}): {what}',
                     dict({'shape': c.spec(), 'sequence': seq, 'failing_step': k}, **(extra or {})))
+    def sub_shape(sh, pth):
+      for kk, ii in pth: sh = sh[1].fields[ii][1] if kk == 'F' else sh[2]
+      return sh
+    def assign(i, pth, rhs, nb, how):
+      """x_i.pth @= rhs  /  x_i.pth <<= rhs, written the way user code writes it"""
+      f = operator.ilshift if nb else operator.imatmul
+      if not pth: objs[i] = f(objs[i], rhs); return
+      if how == 'inplace': f(leaf_obj(shapes[i], objs[i], pth), rhs); return
+      par = leaf_obj(shapes[i], objs[i], pth[:-1]); psh = sub_shape(shapes[i], pth[:-1]); kk, ii = pth[-1]
+      if kk == 'F':
+        nm = psh[1].fields[ii][0]; setattr(par, nm, f(getattr(par, nm), rhs))
+      else: par[ii] = f(par[ii], rhs)
+    def add(op, ob): ops.append(op); obs.append(ob); pyobs.append(None)
     for k, d in enumerate(seq):
       op = d['op']
       try:
         if op == 'new':
-          o, _ = mk_inst(c, d['value'], d['how']); objs.append(o); ops.append(f'QNew ({v_term(s, d["value"])})')
+          kind = tuple(d['kind']) if isinstance(d['kind'], list) else d['kind']
+          sh = slot_shape(c, kind)
+          o = mk_bits(sh[1])(d['value']) if sh[0] == 'b' else mk_inst(sh[1], d['value'], d['how'])[0]
+          objs.append(o); shapes.append(sh); tags.append(0 if sh[0] == 'b' else 1 + sh[1].idx)
+          ops.append(f'QNew {tags[-1]} {sh_term(sh)} ({v_term(sh, d["value"])})')
         elif op == 'clone':
-          objs.append(objs[d['i']].clone() if d['how'] == 'clone' else copy.deepcopy(objs[d['i']])); ops.append(f'QClone {d["i"]}')
+          objs.append(objs[d['i']].clone() if d['how'] == 'clone' else copy.deepcopy(objs[d['i']]))
+          shapes.append(shapes[d['i']]); tags.append(tags[d['i']]); ops.append(f'QClone {d["i"]}')
         elif op == 'reunpack':
-          src = objs[d['i']]; cur = observe(s, src)
-          objs.append(c.pycls.from_bits(src.to_bits())); ops.append(f'QNew ({v_term(s, cur)})')
+          sh = ('s', c)
+          objs.append(c.pycls.from_bits(objs[d['j']].to_bits())); shapes.append(sh); tags.append(1 + c.idx)
+          add(f'QNew {tags[-1]} {sh_term(sh)} ({v_term(sh, v_unpack(sh, 0))})', 'None')
+          ops.append(f'QAssign false {len(objs) - 1} [] {d["j"]} []')
         elif op == 'write':
-          pth = [tuple(x) for x in d['path']]
-          sh = s
-          for kk, ii in pth: sh = sh[1].fields[ii][1] if kk == 'F' else sh[2]
-          val = build(sh, d['value'], 0.0, True)
-          node = leaf_obj(s, objs[d['i']], pth)
-          if d['how'] == 'inplace@=': operator.imatmul(node, val)
-          elif d['how'] == '<<=flip':
-            operator.ilshift(node, val); node._flip()
-          else:
-            par_shape = s
-            for kk, ii in pth[:-1]: par_shape = par_shape[1].fields[ii][1] if kk == 'F' else par_shape[2]
-            par = leaf_obj(s, objs[d['i']], pth[:-1]); kk, ii = pth[-1]
-            if kk == 'F':
-              nm = par_shape[1].fields[ii][0]; setattr(par, nm, operator.imatmul(getattr(par, nm), val))     # x.f @= v
-            else: par[ii] = operator.imatmul(par[ii], val)                                                   # x.l[k] @= v
-          ops.append(f'QWrite {d["i"]} {TR.t_path(pth)} ({v_term(sh, d["value"])})')
-        elif op == 'imatmul':
-          objs[d['i']] = operator.imatmul(objs[d['i']], objs[d['j']] if d['how'] == 'struct' else objs[d['j']].to_bits()); ops.append(f'QImatmul {d["i"]} {d["j"]}')
-        elif op == 'ilshift':
-          objs[d['i']] = operator.ilshift(objs[d['i']], objs[d['j']] if d['how'] == 'struct' else objs[d['j']].to_bits()); ops.append(f'QIlshift {d["i"]} {d["j"]}')
+          pth = [tuple(x) for x in d['path']]; sh = sub_shape(shapes[d['i']], pth)
+          assign(d['i'], pth, build(sh, d['value'], 0.0, True), d['nb'], d['how'])
+          ops.append(f'QWrite {"true" if d["nb"] else "false"} {d["i"]} {TR.t_path(pth)} ({v_term(sh, d["value"])})')
+        elif op == 'assign':
+          pth = [tuple(x) for x in d['path']]; q = [tuple(x) for x in d['src_path']]
+          src = leaf_obj(shapes[d['j']], objs[d['j']], q)
+          assign(d['i'], pth, src if d['rhs'] == 'live' else src.to_bits(), d['nb'], d['how'])
+          ops.append(f'QAssign {"true" if d["nb"] else "false"} {d["i"]} {TR.t_path(pth)} {d["j"]} {TR.t_path(q)}')
         elif op == 'flip':
-          objs[d['i']]._flip(); ops.append(f'QFlip {d["i"]}')
+          pth = [tuple(x) for x in d['path']]
+          leaf_obj(shapes[d['i']], objs[d['i']], pth)._flip(); ops.append(f'QFlip {d["i"]} {TR.t_path(pth)}')
         else: ops.append('QNop')
         if not d.get('observe'):
           obs.append('None'); pyobs.append(None); continue
-        vals = [(observe(s, o), packed(o)) for o in objs]
+        vals = [(observe(sh, o), packed(o)) for sh, o in zip(shapes, objs)]
         hv = [hash(o) for o in objs]
         eqs, hs = [], []
         for a in range(len(objs)):
           for b in range(a + 1, len(objs)):
+            if tags[a] != tags[b]: continue
             e = objs[a] == objs[b]
-            if type(e) is not bool or e != (objs[b] == objs[a]) or e == (objs[a] != objs[b]):
-              fail('eq', k, f'== / != inconsistent between instances {a} and {b}')
+            if shapes[a][0] == 's' and (type(e) is not bool or e != (objs[b] == objs[a]) or e == (objs[a] != objs[b])):
+              fail('eq', k, f'== / != inconsistent between objects {a} and {b}')
             eqs.append(bool(e)); hs.append(hv[a] == hv[b])
         for a, o in enumerate(objs):      # an equal instance obtained independently must compare and hash equal, whatever was done to o before
-          f = c.pycls.from_bits(o.to_bits())
-          if not (f == o) or not (o == f): fail('roundtrip', k, f'from_bits(x.to_bits()) != x for instance {a}', {'value': vals[a][0]})
-          elif hash(f) != hv[a]: fail('hash', k, f'instance {a} and an equal instance built by from_bits(x.to_bits()) have different hashes', {'value': vals[a][0]})
-        idl = [ids(s, o, []) for o in objs]
-        allid = [x for l in idl for x in l]
+          if shapes[a][0] != 's': continue
+          f = shapes[a][1].pycls.from_bits(o.to_bits())
+          if not (f == o) or not (o == f): fail('roundtrip', k, f'from_bits(x.to_bits()) != x for object {a}', {'value': vals[a][0]})
+          elif hash(f) != hv[a]: fail('hash', k, f'object {a} and an equal instance built by from_bits(x.to_bits()) have different hashes', {'value': vals[a][0]})
+        allid = [x for sh, o in zip(shapes, objs) for x in ids(sh, o, [])]
         if len(set(allid)) != len(allid):
-          fail('alias', k, 'two positions (within one instance or across instances) hold the SAME sub-object', {'values': [v for v, _ in vals]})
-        obs.append('Some (' + coq_list([f'({v_term(s, v)}, {zlit(u)})' for v, u in vals]) + ', ' + coq_list(['true' if e else 'false' for e in eqs])
+          fail('alias', k, 'two positions (within one object or across live objects) hold the SAME sub-object', {'values': [v for v, _ in vals]})
+        obs.append('Some (' + coq_list([f'({v_term(sh, v)}, {zlit(u)})' for sh, (v, u) in zip(shapes, vals)]) + ', ' + coq_list(['true' if e else 'false' for e in eqs])
                    + ', ' + coq_list(['true' if h else 'false' for h in hs]) + ')')
-        pyobs.append({'values': [v for v, _ in vals], 'to_bits': [hex(u) for _, u in vals], 'eq_pairs': eqs, 'hash_equal_pairs': hs})
+        pyobs.append({'values': [v for v, _ in vals], 'to_bits': [hex(u) for _, u in vals], 'eq_pairs_same_type': eqs, 'hash_equal_pairs_same_type': hs})
       except Exception as e:
         fail('raise', k, f'raised {e!r}', {'traceback': traceback.format_exc()[-800:]})
         return
-    q_cases.append(f'(T{c.idx}, {coq_list(ops)}, {coq_list(obs)})'); q_meta.append((c, seq, ops, pyobs))
-    for kq, d in enumerate(seq): ctx.count(('seq', c.spec(), json.dumps(seq[:kq + 1], default=str)), True, cls='seq:' + d['op'] + (':' + d['how'] if 'how' in d else ''))
+    steps_of = []          # coq step index -> sequence step index (reunpack is two model steps)
+    for k, d in enumerate(seq): steps_of += [k, k] if d['op'] == 'reunpack' else [k]
+    q_cases.append(f'({coq_list(ops)}, {coq_list(obs)})'); q_meta.append((c, seq, ops, pyobs, steps_of))
+    for kq, d in enumerate(seq): ctx.count(('seq', c.spec(), json.dumps(seq[:kq + 1], default=str)), True,
+                                           cls='seq:' + d['op'] + (':nb' if d.get('nb') else '') + (':' + str(d['rhs']) if 'rhs' in d else ''))
   for c in classes:
     if rp is not None:
       if c is classes[-1] and 'sequence' in rp: run_sequence(c, rp['sequence'])
       if c is not classes[-1]: continue
     for _ in range((3 if c.idx < ndir else 1) if quick else 3):
       run_sequence(c, gen_sequence(c, rng.choice([8, 10, 12]) if quick else rng.choice([10, 14, 18])))
-  bad = ctx.coq_bad_indices('seq', imports, shape_defs, 'shape * list seq_op * list step_obs', q_cases,
-                            "let '(T, ops, obs) := c in seq_ok T ops obs", shard=25)
+  bad = ctx.coq_bad_indices('seq', imports, shape_defs, 'list seq_op * list step_obs', q_cases,
+                            "seq_ok (fst c) (snd c)", shard=25)
   for i in bad[:6]:
-    c, seq, ops, pyobs = q_meta[i]
-    r = ctx.coq_eval('qexp', imports, shape_defs, [f"let '(T, ops, obs) := {q_cases[i]} in seq_run T ([], empty_store) ops obs 0"])
-    m = re.search(r'Some (\d+)', r[0]); k = int(m.group(1)) if m else 0
-    mv = ctx.coq_eval('qmod', imports, shape_defs, ['seq_model ' + coq_list(ops[:k + 1])])
+    c, seq, ops, pyobs, steps_of = q_meta[i]
+    r = ctx.coq_eval('qexp', imports, shape_defs, [f"let c := {q_cases[i]} in seq_run ([], empty_store) (fst c) (snd c) 0"])
+    m = re.search(r'Some (\d+)', r[0]); km = int(m.group(1)) if m else 0
+    k = steps_of[min(km, len(steps_of) - 1)]
+    mv = ctx.coq_eval('qmod', imports, shape_defs, ['seq_model ' + coq_list(ops[:km + 1])])
     h = hashlib.sha1(json.dumps(['seq', c.spec(), seq], default=str).encode()).hexdigest()[:10]
-    ctx.violation(f'C06:sequence:{h}', f'operation sequence diverges from the property at step {k} ({seq[k]}): observed {json.dumps(pyobs[k])[:300]}; '
-                  f'the model holds {mv[0][:300]} (== must agree with the packed values, equal instances must hash equal, copies must be independent)',
-                  {'shape': c.spec(), 'sequence': seq, 'failing_step': k, 'observed_at_step': pyobs[k], 'model_values_at_step': mv[0], 'steps_before': seq[:k + 1]})
+    ctx.violation(f'C06:sequence:{h}', f'operation sequence diverges from the property at step {k} ({seq[k]}): observed {json.dumps(pyobs[km])[:300]}; '
+                  f'the model (value semantics) holds {mv[0][:300]} (an assignment transfers the value the source has at that moment and never links '
+                  'the two; == must agree with the packed values; equal instances must hash equal)',
+                  {'shape': c.spec(), 'sequence': seq, 'failing_step': k, 'observed_at_step': pyobs[km], 'model_values_at_step': mv[0], 'steps_before': seq[:k + 1]})
   if q_cases: ctx.sample({'kind': 'sequence', 'steps': q_meta[0][1][:6], 'coq': q_cases[0][:600]})
   ctx.extra['cases_sequences'] = len(q_cases); ctx.extra['sequence_steps'] = sum(len(m[1]) for m in q_meta)
 
